@@ -77,13 +77,16 @@ class TransactionChangesPlugin(Plugin):
             if not hasattr(entity, '__name__'):
                 breakpoint()
             params = uow.current_transaction.id, str(entity.__name__)
-            changes = session.query(self.model_class).get(params)
+            # The rows are written through the version session, i.e. by the
+            # same flush that writes the version objects they describe.
+            version_session = uow.version_session
+            changes = version_session.query(self.model_class).get(params)
             if not changes:
                 changes = self.model_class(
                     transaction_id=uow.current_transaction.id,
                     entity_name=str(entity.__name__)
                 )
-                session.add(changes)
+                version_session.add(changes)
 
     def clear(self):
         self.objects = None
